@@ -1,3 +1,4 @@
+import Treepath.Proofs.Drive
 import Treepath.Model.Api
 /- C05 — get, get_match and find are projections of find_matches -/
 namespace Treepath.C05
@@ -37,5 +38,21 @@ theorem get_default (cx : Ctx α) (steps : Array (Step α)) (src : Src α)
     (∀ v, get cx steps src (.const v) = .ok (v, 0)) ∧
     (∀ f, get cx steps src (.callable f) = .ok (f (), 1)) := by
   simp [get, getMatch, h]
+
+/-- on JSON trees `get_match` returns the *first element of the definition's answer*, and
+reports "not found" exactly when that answer is empty (quiet paths, budget not exhausted) -/
+theorem getMatch_is_head_of_eval (steps : Array (Step J)) (src : Src J) (hq : Quiet steps.toList) (hp : PredsClean steps)
+    (cx : Ctx J) (hv : cx.view = J.view) (st' : St J) (evs : List (Ev J)) :
+    (∀ n, next cx.view steps src cx.limit freshIter = (st', evs, .result n) →
+        (eval steps.toList src.rootNode).head? = some n) ∧
+    (next cx.view steps src cx.limit freshIter = (st', evs, .stop) → eval steps.toList src.rootNode = []) := by
+  rw [hv]
+  constructor
+  · intro n hn
+    obtain ⟨rest, hr⟩ := yields_prefix steps src hq hp cx.limit st' [n] (evs ++ [])
+      (.cons _ _ _ _ _ _ _ hn (.nil _))
+    rw [hr]; rfl
+  · intro hs
+    exact (exhausted_all steps src hq hp cx.limit freshIter st' [] [] evs (.nil _) hs).symm
 
 end Treepath.C05
